@@ -124,6 +124,38 @@ theorem waits_only_for_live_callee (ops : List Op) (p : Nat) (c : Call)
     rw [this]; exact ⟨hl, u, y, hy, hal, hm⟩
   · exact Or.inr (Or.inl hd)
 
+/-- (the property text, with its caveat visible) "If the callee stops, is killed, fails, drains or
+drops the port without replying, the caller gets SenderError instead of hanging": once the callee
+is no longer alive NO caller of it is still waiting — EXCEPT a caller whose port the callee's
+handler had moved elsewhere: to a detached task, or into the callee's own state when that state,
+boxed into `ActorTerminated(_, Some(state), _)` on a graceful stop, is still kept by a live
+supervisor (`stateKept`). Kill and handler failure never box the state (`exitActor`), so the
+second exception needs a graceful stop/drain AND a supervisor that retains the event; the default
+`handle_supervisor_evt` drops it at once. Without these two, `c.res ≠ none`. -/
+theorem dead_callee_completes_unless_port_moved (ops : List Op) (p : Nat) (c : Call) (x : Actor)
+    (hc : (run ops).calls[p]? = some c) (hx : (run ops).actors[c.callee]? = some x) (hdead : x.alive = false)
+    (hnd : c.loc ≠ .detached)
+    (hns : ¬ (c.loc = .event c.callee ∧ supHolds (run ops).sups c.callee = true)) : c.res ≠ none := by
+  intro hw
+  rcases waits_only_for_live_callee ops p c hc hw with ⟨y, hy, hal⟩ | hd | ⟨hl, u, y, hy, hal, hm⟩
+  · rw [hx] at hy; cases hy; rw [hdead] at hal; cases hal
+  · exact hnd hd
+  · exact hns ⟨hl, supHolds_iff.mpr ⟨u, y, hy, hal, hm⟩⟩
+
+/-- (the caveat is real — witness) The unqualified sentence "if the callee stops … the caller gets
+SenderError instead of hanging" is FALSE of the code: a callee whose handler kept the reply port
+in its state stops gracefully under a supervisor that stashes the `ActorTerminated` event; the
+callee is dead, the caller (no timeout) is still waiting, nothing is detached. (Corpus witness
+`corpus/C09/e-lts-rpc-stash-keeps-caller-waiting.ops`; the real code behaves the same.) The wait
+ends exactly when the supervisor drops the event, dies, or answers through the port
+(`event_port_held_and_not_failed`, `dropped_port_completes`). -/
+theorem stopped_callee_caller_may_wait_while_supervisor_keeps_state :
+    ∃ (ops : List Op) (p : Nat) (c : Call) (x : Actor),
+      (run ops).calls[p]? = some c ∧ c.res = none ∧ c.deadline = none ∧ c.loc ≠ .detached ∧
+      (run ops).actors[c.callee]? = some x ∧ x.alive = false :=
+  ⟨[.spawnSup, .spawnl 0, .call 0 none, .handle 0 .keep, .stop 0 .drop, .suphandle 0 true], 0,
+   ⟨0, none, .event 0, none, none, none, 0⟩, ⟨false, false, [], [], some 0⟩, by decide⟩
+
 /-- (a kept state keeps its ports alive — and only a LIVE supervisor can keep it) A port
 inside a termination event is held, queued or stashed, by a supervisor that is alive; and
 while it is there its caller has NOT been failed: the caller is still waiting, or timed out
@@ -298,6 +330,8 @@ end C09
 #print axioms C09.senderError_is_own_drop
 #print axioms C09.waiting_only_while_port_alive
 #print axioms C09.waits_only_for_live_callee
+#print axioms C09.dead_callee_completes_unless_port_moved
+#print axioms C09.stopped_callee_caller_may_wait_while_supervisor_keeps_state
 #print axioms C09.event_port_held_and_not_failed
 #print axioms C09.dropped_port_completes
 #print axioms C09.orphaned_event_port_is_dropped
